@@ -15,7 +15,9 @@ def hexDigitChar (n : Nat) : Char := if n < 10 then Char.ofNat (48 + n) else Cha
 /-- `format!("{:08x}", id)`: the hex text of the 4-byte block hash -/
 def hex8 (n : Nat) : String :=
   String.ofList ((List.range 8).reverse.map fun i => hexDigitChar (n / 16 ^ i % 16))
-def txName (id k : Nat) : String := s!"t{id}x{k}"
+/-- `format!("t{:06}", t)`: fixed width, so that the order of the hashes is the order of the numbers -/
+def txName (t : Nat) : String := "t" ++ String.ofList ((Nat.toDigits 10 (1000000 + t % 1000000)).drop 1)
+def sortTx (ts : List Nat) : List Nat := ts.mergeSort (fun a b => a ≤ b)
 
 /-- insertion sort by block number (ranges hold at most 15 blocks) -/
 def sortByNumber (bs : List Block) : List Block :=
@@ -25,48 +27,116 @@ def sortByNumber (bs : List Block) : List Block :=
 
 /-- `MKTree::new_from_iter(nodes).compute_root()` over the `BTreeSet` of block and transaction nodes
 of one range: all block leaves (by number), then all transaction leaves (by number, then hash) -/
-def rootNew (ntx : Nat → Nat) (bs : List Block) : Option Bytes :=
+def rootNew (tx : Nat → List Nat) (bs : List Block) : Option Bytes :=
   if bs.isEmpty then none else
   let s := sortByNumber bs
   let blockLeaves := s.map fun b => ascii s!"Block/{hex8 b.hash}/{b.number}/{b.slot}"
   let txLeaves := s.flatMap fun b =>
-    (List.range (ntx b.hash)).map fun k => ascii s!"Tx/{txName b.hash k}/{hex8 b.hash}/{b.number}/{b.slot}"
+    (sortTx (tx b.hash)).map fun t => ascii s!"Tx/{txName t}/{hex8 b.hash}/{b.number}/{b.slot}"
   MmrBuild.root merge (blockLeaves ++ txLeaves)
 
 /-- legacy table: the transaction hashes of the range ordered by (block number, hash); skipped when empty -/
-def rootLegacy (ntx : Nat → Nat) (bs : List Block) : Option Bytes :=
+def rootLegacy (tx : Nat → List Nat) (bs : List Block) : Option Bytes :=
   let s := sortByNumber bs
-  let leaves := s.flatMap fun b => (List.range (ntx b.hash)).map fun k => ascii (txName b.hash k)
+  let leaves := s.flatMap fun b => (sortTx (tx b.hash)).map fun t => ascii (txName t)
   if leaves.isEmpty then none else MmrBuild.root merge leaves
+
+/-! both root functions read the transactions of the blocks of the range only (`Import.LocalRoot`):
+computed from the join under the table invariant they are the roots of the stored blocks -/
+
+theorem span_loop_append {α : Type} (p : α → Bool) : ∀ (l acc : List α),
+    (List.span.loop p l acc).1 ++ (List.span.loop p l acc).2 = acc.reverse ++ l := by
+  intro l
+  induction l with
+  | nil => intro acc; simp [List.span.loop]
+  | cons a r ih =>
+    intro acc
+    simp only [List.span.loop]
+    split
+    · rw [ih]; simp
+    · rfl
+
+theorem span_append {α : Type} (p : α → Bool) (l : List α) : (l.span p).1 ++ (l.span p).2 = l := by
+  unfold List.span; rw [span_loop_append]; simp
+
+theorem mem_sortByNumber_aux : ∀ (bs acc : List Block) (x : Block),
+    x ∈ bs.foldl (fun acc b =>
+      let (lo, hi) := acc.span (fun x => x.number ≤ b.number)
+      lo ++ b :: hi) acc → x ∈ acc ∨ x ∈ bs := by
+  intro bs
+  induction bs with
+  | nil => intro acc x h; exact Or.inl h
+  | cons b r ih =>
+    intro acc x h
+    simp only [List.foldl_cons] at h
+    rcases ih _ x h with h1 | h1
+    · have hsplit : (acc.span (fun x => x.number ≤ b.number)).1 ++ (acc.span (fun x => x.number ≤ b.number)).2 = acc := by
+        exact span_append _ _
+      simp only [List.mem_append, List.mem_cons] at h1
+      rcases h1 with h2 | rfl | h2
+      · exact Or.inl (by rw [← hsplit]; exact List.mem_append_left _ h2)
+      · exact Or.inr (by simp)
+      · exact Or.inl (by rw [← hsplit]; exact List.mem_append_right _ h2)
+    · exact Or.inr (by simp [h1])
+
+theorem mem_sortByNumber {bs : List Block} {x : Block} (h : x ∈ sortByNumber bs) : x ∈ bs := by
+  rcases mem_sortByNumber_aux bs [] x h with h1 | h1
+  · simp at h1
+  · exact h1
+
+theorem flatMap_congr' {α β : Type} {f g : α → List β} : ∀ (l : List α), (∀ x ∈ l, f x = g x) → l.flatMap f = l.flatMap g := by
+  intro l
+  induction l with
+  | nil => intro _; rfl
+  | cons a r ih =>
+    intro h
+    simp only [List.flatMap_cons, h a (by simp)]
+    rw [ih (fun x hx => h x (by simp [hx]))]
+
+theorem rootNew_local : LocalRoot rootNew := by
+  intro tx tx' bs h
+  unfold rootNew
+  split
+  · rfl
+  · simp only
+    rw [flatMap_congr' (sortByNumber bs) (fun b hb => by rw [h b (mem_sortByNumber hb)])]
+
+theorem rootLegacy_local : LocalRoot rootLegacy := by
+  intro tx tx' bs h
+  unfold rootLegacy
+  simp only
+  rw [flatMap_congr' (sortByNumber bs) (fun b hb => by rw [h b (mem_sortByNumber hb)])]
 
 def showRoots (rs : List (Nat × Bytes)) : String :=
   let sorted := rs.mergeSort (fun a b => a.1 ≤ b.1)
   String.intercalate "," (sorted.map fun r => s!"({r.1 * LEN},{r.1 * LEN + LEN},{hexEncode r.2})")
 
-def dumpText (ntx : Nat → Nat) (st : St Bytes) : String :=
+/-- the store as the harness dumps it: blocks, the join `cardano_block ⋈ cardano_tx` as
+(transaction hash, block number, block hash) ordered by (block number, transaction hash), both root tables -/
+def dumpText (st : St Bytes) : String :=
   let bs := (st.blocks.mergeSort (fun a b => a.number < b.number || (a.number = b.number && a.hash ≤ b.hash)))
   let b := String.intercalate "," (bs.map fun x => s!"({x.hash},{x.number},{x.slot})")
-  let t := String.intercalate "," (bs.flatMap fun x => (List.range (ntx x.hash)).map fun k => s!"({txName x.hash k},{x.hash})")
+  let t := String.intercalate "," (bs.flatMap fun x => (sortTx (txsIn st.txs x.hash)).map fun k => s!"({txName k},{x.number},{x.hash})")
   s!"B[{b}]T[{t}]R[{showRoots st.roots}]L[{showRoots st.legacy}]"
 
-def summary (ntx : Nat → Nat) (st : St Bytes) : String :=
-  let h := b2s (ascii (dumpText ntx st))
+def summary (st : St Bytes) : String :=
+  let h := b2s (ascii (dumpText st))
   let hi := match highest st.blocks with
     | some b => toString b.number
     | none => "-"
   s!"n={st.blocks.length};hi={hi};r={st.roots.length};l={st.legacy.length};h={hexEncode (h.take 4)}"
 
 structure Tbl where
-  blocks : List (Nat × Block × Nat)
+  blocks : List (Nat × Block × List Nat)
 
-def Tbl.find (t : Tbl) (id : Nat) : Option (Block × Nat) := (t.blocks.find? (·.1 = id)).map (·.2)
+def Tbl.find (t : Tbl) (id : Nat) : Option (Block × List Nat) := (t.blocks.find? (·.1 = id)).map (·.2)
 
-def parseBlock : Val → Option (Nat × Block × Nat)
+def parseBlock : Val → Option (Nat × Block × List Nat)
   | .l [a, b, c, d] => do
     let id ← a.nat?
     let n ← b.nat?
     let s ← c.nat?
-    let k ← d.nat?
+    let k ← d.nats?
     pure (id, ⟨id, n, s⟩, k)
   | _ => none
 
@@ -97,7 +167,7 @@ def parseStep (t : Tbl) : Val → Option Step
     pure (.prune k)
   | _ => none
 
-/-- `c13.run max=<max_roll_forwards_per_poll> blocks=[(id,number,slot,ntx),…] steps=[(i,target,[replies]),(r),(p,keep),…]`
+/-- `c13.run max=<max_roll_forwards_per_poll> blocks=[(id,number,slot,[transaction,…]),…] steps=[(i,target,[replies]),(r),(p,keep),…]`
 answers the whole trace: per step the resume point, the store calls, the class letter and the store
 checksum; the full store dump at the end. After the first import whose class leaves the store
 damaged (`1 2 x p`) the letters are `t` (tainted): the refinement theorem no longer applies. -/
@@ -106,23 +176,24 @@ def runReq (r : Req) : Option String := do
   let blocks ← (← r.list "blocks").mapM parseBlock
   let tbl : Tbl := ⟨blocks⟩
   let steps ← (← r.list "steps").mapM (parseStep tbl)
-  let ntx : Nat → Nat := fun id => match tbl.find id with
+  let txsOf : Nat → List Nat := fun id => match tbl.find id with
     | some (_, k) => k
-    | none => 0
-  let R := rootNew ntx
-  let RL := rootLegacy ntx
-  let init : St Bytes := { blocks := [], roots := [], legacy := [], lastPolled := none }
+    | none => []
+  -- the range importers read the join of the stored blocks with the stored transaction rows
+  let R := fun (T : List TxRow) => rootNew (txsIn T)
+  let RL := fun (T : List TxRow) => rootLegacy (txsIn T)
+  let init : St Bytes := { blocks := [], txs := [], roots := [], legacy := [], lastPolled := none }
   let (st, out, _) := steps.foldl (fun (acc : St Bytes × List String × Bool) step =>
     let (st, out, tainted) := acc
     match step with
     | .restart =>
       let st' := { st with lastPolled := none }
-      (st', s!"R;{summary ntx st'}" :: out, tainted)
+      (st', s!"R;{summary st'}" :: out, tainted)
     | .prune k =>
       let st' := prune st k
-      (st', s!"P{k};{summary ntx st'}" :: out, tainted)
+      (st', s!"P{k};{summary st'}" :: out, tainted)
     | .imp target rs =>
-      let o := importStep ntx R RL maxPer st target rs
+      let o := importStep txsOf R RL maxPer st target rs
       let frm := match o.from? with
         | none => "skip"
         | some none => "origin"
@@ -131,9 +202,9 @@ def runReq (r : Req) : Option String := do
       let tainted' := tainted || letter == '1' || letter == '2' || letter == 'x' || letter == 'p'
       let res := if o.panicked then "panic" else "ok"
       let left := if o.left = 0 then "" else s!";left={o.left}"
-      let line := s!"i{target}:{res};from={frm};ops=[{String.intercalate "," o.ops}];c={letter}{left};{summary ntx o.st}"
+      let line := s!"i{target}:{res};from={frm};ops=[{String.intercalate "," o.ops}];c={letter}{left};{summary o.st}"
       (o.st, line :: out, tainted')) (init, [], false)
-  pure (String.intercalate " " out.reverse ++ " D=" ++ dumpText ntx st)
+  pure (String.intercalate " " out.reverse ++ " D=" ++ dumpText st)
 
 def handle (r : Req) : Option String :=
   match r.op with
